@@ -79,7 +79,7 @@ def check(ctx):
         bad = []
         if not (same(cap['r'], r_arg) and same(resv['r'], r_arg)):
             bad.append("capacity/ledger queried for a different resource than the one booked")
-        if not (same(cap['d'], d_arg) and same(resv['d'], d_arg)):
+        if not (same(cap['d'], d_arg) and _same_day(resv['d'], d_arg)):
             bad.append("capacity/ledger queried for a different day expression than the one booked")
         if not same(resv['u'], c.func.value):
             bad.append("free capacity computed from a different ledger than the one booked")
@@ -289,6 +289,15 @@ def check(ctx):
                     o.refute(f, c, c, "resource table is not keyed by the task's resource name / default resource gets another name")
                     continue
                 conds = facts.node_conditions(prog, f, c, ctx.typer, expand=True)
+                body0 = [s_ for s_ in f.body if not (isinstance(s_, ast.Expr) and isinstance(s_.value, ast.Constant))]
+                entry = body0[0] if body0 and isinstance(body0[0], ast.If) and not body0[0].orelse and body0[0].body and \
+                    isinstance(body0[0].body[-1], ast.Return) else None
+                if entry is not None:
+                    # the early return that opens the pass (the memo test, in whatever form it is kept) guards everything below it
+                    raw = [(t, p) for t, p in cfg.conditions(cn_) if not (t is entry.test and not p)]
+                    conds = []
+                    for t, p in raw:
+                        conds += facts.split_conj(exf.expand(t, cfg.node_containing(t)), p)
                 others = [(t, p) for t, p in conds if not facts.cond_is(t, p, f"{task_p}.id in $c", want=False)]
                 if id(c) in membership_form:
                     guard = [(t, p) for t, p in others if (lambda mm: mm is not None and same(exf.expand(mm['k'], cn_), k1))(
@@ -573,7 +582,7 @@ def check(ctx):
                             else:
                                 o.undecided(f, r, t, "the search's ledger selector is a conditional the rule does not recognise")
                         elif not (src(fr['cap']['r']) == f.params[1] and src(fr['resv']['r']) == f.params[1]
-                                  and src(fr['resv']['u']) == f.params[2] and same(fr['cap']['d'], fr['resv']['d'])):
+                                  and src(fr['resv']['u']) == f.params[2] and _same_day(fr['cap']['d'], fr['resv']['d'])):
                             o.refute(f, r, t, "search tests capacity and bookings of different resource/day/ledger")
                         else:
                             o.site(f, r, src(t)[:100])
@@ -878,6 +887,15 @@ def ledger_shape(ctx, o):
             o.refute(qf, c.node, c.node, "ledger sum does not filter by day")
         else:
             o.site(qf, c.node, "filters: resource, midnight(day)" + (", " + extra[0] if extra else ''))
+
+
+def _same_day(a, b):
+    """the two expressions name the same ledger day: equal, or equal after the midnight normalisation the ledger applies to
+    every day it is given (`reserved(r, midnight(d))` and `reserved(r, d)` read the same rows)"""
+    if same(a, b):
+        return True
+    ma, mb = facts.is_midnight_of(a), facts.is_midnight_of(b)
+    return same(ma if ma is not None else a, mb if mb is not None else b)
 
 
 def _sel_eval(e, T, E, task_p, row):
